@@ -101,6 +101,14 @@ def run(shard):
                 hash(y)
             except Exception as e:
                 r["hash_error"] = "%s: %s" % (type(e).__name__, H.short(e, 200))
+            # documents travel between hosts through whatever serializer the transport uses: member order is not significant
+            for label, doc3 in H.json_transits(rec["doc"]):
+                H.count("checks:C15.transit")
+                try:
+                    if not (CodeData.from_json_data(doc3) == y):
+                        r["error"] = "the same document with %s loads to different data on this host" % label
+                except Exception as e:
+                    r["error"] = "from_json_data raises for the same document with %s: %s: %s" % (label, type(e).__name__, H.short(e, 200))
             try:
                 redump = y.to_json_data()
                 r["canon"] = md5(canon(redump))
